@@ -303,73 +303,85 @@ Definition op_valid (c : cfg) (o : op) : bool :=
   | OLabel _ n => label_valid c n
   end.
 
-(* append an operation if it validates; false = refused *)
-Definition try_append (c : cfg) (ops : list op) (o : op) : list op * bool :=
-  if op_valid c o then (ops ++ [o], true) else (ops, false).
+(* ensureIssueEvent, once the gitlab-id lookup gave at most one operation and the author's identity is there:
+   nothing to do, an error, or an operation to append (with the result to emit) *)
+Inductive action := ANone | AError | AAppend (o : op) (r : option res).
 
-(* ensureIssueEvent on the operation list of the issue's bug. *)
+Definition note_body (e : event) : text := match e with ENote n => n_body n | _ => [] end.
+Definition note_updated (e : event) : N := match e with ENote n => n_updated n | _ => 0 end.
+Definition label_name (e : event) : text := match e with ELabel l => cleanup1 (l_name l) | _ => [] end.
+
+Definition decide (c : cfg) (iss : issue) (ops : list op) (e : event) : action :=
+  let iid := i_iid iss in
+  let g := ev_id e in
+  let r := resolve g ops in
+  let found := match r with LOne _ => true | _ => false end in
+  let mk k := mkop (Some g) (ev_user e) (ev_time e) k in
+  match ev_kind e with
+  | KClosed => if found then ANone else AAppend (mk (OStatus true)) (Some (RStatus iid))
+  | KReopened => if found then ANone else AAppend (mk (OStatus false)) (Some (RStatus iid))
+  | KDesc =>
+      let d := cleanup (i_desc iss) in
+      match comment_text ops 0 with
+      | None => AError (* unreachable: position 0 is the create operation *)
+      | Some first =>
+          if negb found && negb (text_eqb d first)
+          then AAppend (mkop (Some g) (ev_user e) (note_updated e) (OEdit 0 d)) (Some (RTitle iid))
+          else ANone
+      end
+  | KComment =>
+      let m := cleanup (note_body e) in
+      match r with
+      | LOne p =>
+          match comment_text ops p with
+          | None => AError     (* the operation with that gitlab-id created no comment *)
+          | Some cur => if text_eqb cur m then ANone
+                        else AAppend (mkop None (ev_user e) (note_updated e) (OEdit p m)) (Some (RCommentEdit iid))
+          end
+      | _ => AAppend (mk (OComment m)) (Some (RComment iid))
+      end
+  | KTitle =>
+      if found then ANone
+      else match new_title (note_body e) with
+           | None => AError
+           | Some t => AAppend (mk (OTitle t (cur_title ops []))) (Some (RTitle iid))
+           end
+  | KAddLabel => if c_dedupe_labels c && found then ANone else AAppend (mk (OLabel true (label_name e))) None
+  | KRemoveLabel => if c_dedupe_labels c && found then ANone else AAppend (mk (OLabel false (label_name e))) None
+  | KIgnored => ANone
+  | KUnknown => AError
+  end.
+
+(* the operation list after ensureIssueEvent; ok: the author's identity could be ensured *)
+Definition step (c : cfg) (iss : issue) (ok : bool) (ops : list op) (e : event) : list op :=
+  match e with
+  | EError => ops
+  | _ => match resolve (ev_id e) ops with
+         | LMany => ops
+         | _ => if ok then match decide c iss ops e with
+                           | AAppend o _ => if op_valid c o then ops ++ [o] else ops
+                           | _ => ops
+                           end
+                else ops
+         end
+  end.
+
 Definition ensure_event (c : cfg) (us : list user) (iss : issue) (st : list op * rs) (e : event) : list op * rs :=
   let '(ops, s) := st in
   match e with
   | EError => (ops, emit RError s)
-  | _ =>
-    let iid := i_iid iss in
-    let g := ev_id e in
-    let r := resolve g ops in
-    match r with
-    | LMany => (ops, emit RError s)
-    | _ =>
-      let found := match r with LOne _ => true | _ => false end in
-      let '(s1, ok) := ensure_person c us (ev_user e) s in
-      if negb ok then (ops, emit RError s1)
-      else
-        let mk k := mkop (Some g) (ev_user e) (ev_time e) k in
-        let add (o : op) (r : option res) :=
-            let '(ops', done) := try_append c ops o in
-            if done then (ops', match r with Some x => emit x s1 | None => s1 end) else (ops, emit RError s1) in
-        match ev_kind e with
-        | KClosed => if found then (ops, s1) else add (mk (OStatus true)) (Some (RStatus iid))
-        | KReopened => if found then (ops, s1) else add (mk (OStatus false)) (Some (RStatus iid))
-        | KDesc =>
-            let d := cleanup (i_desc iss) in
-            match comment_text ops 0 with
-            | None => (ops, emit RError s1) (* unreachable: position 0 is the create operation *)
-            | Some first =>
-                if negb found && negb (text_eqb d first)
-                then let upd := match e with ENote n => n_updated n | _ => 0 end in
-                     add (mkop (Some g) (ev_user e) upd (OEdit 0 d)) (Some (RTitle iid))
-                else (ops, s1)
-            end
-        | KComment =>
-            let body := match e with ENote n => n_body n | _ => [] end in
-            let upd := match e with ENote n => n_updated n | _ => 0 end in
-            let m := cleanup body in
-            match r with
-            | LOne p =>
-                match comment_text ops p with
-                | None => (ops, emit RError s1)     (* the operation with that gitlab-id created no comment *)
-                | Some cur => if text_eqb cur m then (ops, s1)
-                              else add (mkop None (ev_user e) upd (OEdit p m)) (Some (RCommentEdit iid))
-                end
-            | _ => add (mk (OComment m)) (Some (RComment iid))
-            end
-        | KTitle =>
-            if found then (ops, s1)
-            else let body := match e with ENote n => n_body n | _ => [] end in
-                 match new_title body with
-                 | None => (ops, emit RError s1)
-                 | Some t => add (mk (OTitle t (cur_title ops []))) (Some (RTitle iid))
-                 end
-        | KAddLabel =>
-            if c_dedupe_labels c && found then (ops, s1)
-            else let n := match e with ELabel l => cleanup1 (l_name l) | _ => [] end in add (mk (OLabel true n)) None
-        | KRemoveLabel =>
-            if c_dedupe_labels c && found then (ops, s1)
-            else let n := match e with ELabel l => cleanup1 (l_name l) | _ => [] end in add (mk (OLabel false n)) None
-        | KIgnored => (ops, s1)
-        | KUnknown => (ops, emit RError s1)
-        end
-    end
+  | _ => match resolve (ev_id e) ops with
+         | LMany => (ops, emit RError s)
+         | _ => let '(s1, ok) := ensure_person c us (ev_user e) s in
+                (step c iss ok ops e,
+                 if ok then match decide c iss ops e with
+                            | ANone => s1
+                            | AError => emit RError s1
+                            | AAppend o r => if op_valid c o then match r with Some x => emit x s1 | None => s1 end
+                                             else emit RError s1
+                            end
+                 else emit RError s1)
+         end
   end.
 
 Fixpoint find_bug (iid : N) (bs : list bug) : option bug :=
